@@ -131,14 +131,14 @@ def pCore (j : Json) : P CoreObj := do
   | .ok "key" => pure (.key (← pKK (← field j "kk")) (← pOpt pKB (← field j "kb")))
   | .ok "splitKey" => pure (.splitKey (← pSplit (← field j "split")) (← pOpt pKB (← field j "kb")))
   | .ok "secretData" => pure (.secretData (← pFld pNat (← field j "dataType")) (← pOpt pKB (← field j "kb")))
-  | .ok "opaque" => pure (.opaque (← pFld pNat (← field j "opaqueType")) (← pOpt pHex (← field j "value")))
+  | .ok "opaque" => pure (.opaqueObj (← pFld pNat (← field j "opaqueType")) (← pOpt pHex (← field j "value")))
   | _ => throw "core type"
 def jCore : CoreObj → Json
   | .certificate t v => Json.mkObj [("t", "certificate"), ("certType", jNat t), ("value", Json.str v)]
   | .key kk kb => Json.mkObj [("t", "key"), ("kk", jKK kk), ("kb", jOpt jKB kb)]
   | .splitKey s kb => Json.mkObj [("t", "splitKey"), ("split", jSplit s), ("kb", jOpt jKB kb)]
   | .secretData t kb => Json.mkObj [("t", "secretData"), ("dataType", jFld jNat t), ("kb", jOpt jKB kb)]
-  | .opaque t v => Json.mkObj [("t", "opaque"), ("opaqueType", jFld jNat t), ("value", jOpt Json.str v)]
+  | .opaqueObj t v => Json.mkObj [("t", "opaque"), ("opaqueType", jFld jNat t), ("value", jOpt Json.str v)]
 
 /-! pie -/
 def pCrypto (j : Json) : P PieCrypto := do
@@ -158,14 +158,14 @@ def pSpec (j : Json) : P PieSpecific := do
   | .ok "splitKey" =>
     pure (.splitKey (← pCrypto (← field j "crypto")) (← pPieKey (← field j "key")) (← pSplit (← field j "split")))
   | .ok "secretData" => pure (.secretData (← pCrypto (← field j "crypto")) (← pOpt pNat (← field j "dataType")))
-  | .ok "opaque" => pure (.opaque (← pOpt pNat (← field j "opaqueType")))
+  | .ok "opaque" => pure (.opaqueObj (← pOpt pNat (← field j "opaqueType")))
   | _ => throw "pie type"
 def jSpec : PieSpecific → Json
   | .certificate cr t => Json.mkObj [("t", "certificate"), ("crypto", jCrypto cr), ("certType", jOpt jNat t)]
   | .key cr kk k => Json.mkObj [("t", "key"), ("crypto", jCrypto cr), ("kk", jKK kk), ("key", jPieKey k)]
   | .splitKey cr k s => Json.mkObj [("t", "splitKey"), ("crypto", jCrypto cr), ("key", jPieKey k), ("split", jSplit s)]
   | .secretData cr t => Json.mkObj [("t", "secretData"), ("crypto", jCrypto cr), ("dataType", jOpt jNat t)]
-  | .opaque t => Json.mkObj [("t", "opaque"), ("opaqueType", jOpt jNat t)]
+  | .opaqueObj t => Json.mkObj [("t", "opaque"), ("opaqueType", jOpt jNat t)]
 
 def pName (j : Json) : P NameRow := do
   pure ⟨← pStr (← field j "name"), ← pInt (← field j "index"), ← pOpt pNat (← field j "nameType")⟩
@@ -210,7 +210,7 @@ def pRowSpec (j : Json) : P RowSpecific := do
   | .ok "splitKey" =>
     pure (.splitKey (← pCryptoRow (← field j "crypto")) (← pKeyRow (← field j "key")) (← pSplitRow (← field j "split")))
   | .ok "secretData" => pure (.secretData (← pCryptoRow (← field j "crypto")) (← pEnumCol (← field j "dataType")))
-  | .ok "opaque" => pure (.opaque (← pEnumCol (← field j "opaqueType")))
+  | .ok "opaque" => pure (.opaqueObj (← pEnumCol (← field j "opaqueType")))
   | _ => throw "row type"
 def jRowSpec : RowSpecific → Json
   | .certificate cr t => Json.mkObj [("t", "certificate"), ("crypto", jCryptoRow cr), ("certType", jInt t)]
@@ -218,7 +218,7 @@ def jRowSpec : RowSpecific → Json
   | .splitKey cr k s =>
     Json.mkObj [("t", "splitKey"), ("crypto", jCryptoRow cr), ("key", jKeyRow k), ("split", jSplitRow s)]
   | .secretData cr t => Json.mkObj [("t", "secretData"), ("crypto", jCryptoRow cr), ("dataType", jInt t)]
-  | .opaque t => Json.mkObj [("t", "opaque"), ("opaqueType", jInt t)]
+  | .opaqueObj t => Json.mkObj [("t", "opaque"), ("opaqueType", jInt t)]
 
 def pNameRec (j : Json) : P NameRec := do
   pure ⟨← pStr (← field j "name"), ← pInt (← field j "index"), ← pEnumCol (← field j "nameType")⟩
